@@ -398,7 +398,7 @@ def work(p):
                 res.sample({"module": modname, "config": cfgname, "style": src["style"], "new_imports": info.get("new_imports")}, cap=1)
         # CLI apply (file rewritten in place) for the plain configuration
         if spec.get("cli"):
-            judge_cli(res, d, modname, src, tmod, traces, spec)
+            judge_cli(res, d, modname, src, tmod, traces, spec, prop, base_out)
         for n in ("shapes", "fastshapes", "geo", "geo.util", "colors", "typing_defs", modname):
             sys.modules.pop(n, None)
         shutil.rmtree(d, ignore_errors=True)
@@ -406,7 +406,7 @@ def work(p):
     return res.out()
 
 
-def judge_cli(res, d, modname, src, tmod, traces, spec):
+def judge_cli(res, d, modname, src, tmod, traces, spec, prop="C15", base_out=None):
     """`monkeytype run` + `monkeytype apply` in a child interpreter: file rewritten in place == library result."""
     db = os.path.join(d, "t.sqlite3")
     drv = os.path.join(d, "drv.py")
@@ -437,8 +437,26 @@ def judge_cli(res, d, modname, src, tmod, traces, spec):
                 keys.setdefault("existing-annotation-changed[cli]", []).append(f"{pos[0]}({pos[1]}): {text!r} became {na.get(pos)!r} although overwriting was not requested")
     if not any(v for v in na.values()):
         keys.setdefault("cli-apply-added-no-annotation", []).append("no annotation at all in the rewritten file")
+    # the rewritten file must still import and compute the same; with --pep_563 the placement rules hold for it as for the library route
+    more = []
+    if confine and prop == "C16" and not any(k.startswith("program-changed") for k in keys):
+        more += placement(src["source"], after, info)
+        res.count("cli_placement_judgements")
+    if base_out is not None:
+        for n in list(sys.modules):
+            if n == modname or n.startswith(modname + "."):
+                pass  # run_workload uses a fresh interpreter
+        out, err = run_workload(d, modname)
+        res.count("cli_results_executed")
+        if out is None:
+            kind = "NameError" if "NameError" in err else ("ImportError" if "Import" in err or "ModuleNotFound" in err else "other")
+            more.append((f"result-does-not-run:{kind}", f"{err}"))
+        elif out != base_out:
+            more.append(("result-behaves-differently", f"workload() returned {str(out)[:120]} instead of {str(base_out)[:120]}"))
+    for key, text in reclassify(more, src["source"], False, confine, None):
+        keys.setdefault(key, []).append(text)
     for key, texts in keys.items():
-        res.violation(key, f"{modname} (cli apply, {src['style']}): {texts[0][:300]}", dict(wit, result=after[:2000]))
+        res.violation(key, f"{modname} (cli apply{' --pep_563' if confine else ''}, {src['style']}): {texts[0][:300]}", dict(wit, result=after[:2000]))
     open(module_file(d, modname), "w").write(src["source"])
     # `apply --ignore-existing-annotations`: every traced position receives the traced type whatever the source says
     loose = [pos for pos, text in oa.items() if text == "object"]
